@@ -3,7 +3,7 @@ from __future__ import annotations
 
 import numpy as np
 
-from vf import gen, probes
+from vf import gen, plumbing, probes
 
 PID = "C06"
 ANCHORS = ["pyoma2.functions.fdd:SD_svalsvec", "pyoma2.functions.fdd:FDD_mpe", "pyoma2.algorithms.fdd:FDD.run", "pyoma2.algorithms.fdd:FDD.mpe",
@@ -22,7 +22,17 @@ ASSUMPTIONS = ["band = lines nearest to f-DF and f+DF; the returned line may be 
                "(DESIGN 3/C06); lines with sigma1/sigma2 < 1+1e-6 have no defined dominant vector and are not judged"]
 
 
+PLUMB_CLASSES = ['FDD', 'EFDD', 'FDD_MS']
+PLUMB_FIELDS = ['S_val', 'S_vec', 'Fn', 'Phi']
+REQUIRED_MONITORS = list(REQUIRED_MONITORS) + [f"plumbing:{s_}" for s_ in plumbing.SCENARIOS]
+REQUIRED_STATES = list(REQUIRED_STATES) + [f"plumbing scenario {s_}" for s_ in plumbing.SCENARIOS]
+
+
 def cases(tier, seed):
+    return _cases(tier, seed) + plumbing.cases(len(plumbing.SCENARIOS) * len(PLUMB_CLASSES) * (1 if tier == "quick" else 6), PLUMB_CLASSES)
+
+
+def _cases(tier, seed):
     n1, n2, n3, n4 = (200, 60, 14, 30) if tier == "quick" else (4000, 1200, 200, 500)
     return ([{"cls": "hermitian_synthetic", "k": k} for k in range(n1)] + [{"cls": "half_spectrum", "k": k} for k in range(n2)]
             + [{"cls": "through_classes", "k": k} for k in range(n3)] + [{"cls": "narrow_band", "k": k} for k in range(n4)])
@@ -343,5 +353,7 @@ def run_narrow(ctx, rng):
 
 
 def run_case(ctx, case):
+    if case["cls"] == "plumbing":
+        return plumbing.run_case(ctx, case, gen.rng_of(case), PLUMB_FIELDS)
     rng = gen.rng_of(case)
     {"hermitian_synthetic": run_synth, "half_spectrum": run_half, "through_classes": run_classes, "narrow_band": run_narrow}[case["cls"]](ctx, rng)
